@@ -74,8 +74,16 @@ Record cfg := {
   c_gov : bool;          (* caller = the module's authority (governance account) *)
   c_govctl : bool;       (* marker.AllowGovernanceControl *)
   c_allsupply : bool;    (* marker.Supply = caller's balance of the denom *)
-  c_supply_zero : bool   (* marker.Supply = 0 (then [c_allsupply] holds for any caller without coins) *)
+  c_supply_zero : bool;  (* marker.Supply = 0 (then [c_allsupply] holds for any caller without coins) *)
+  c_activated : bool     (* the marker is, or has at some point been, Active (its history, not a
+                            stored field; the harness knows it from the lifecycle it drove) *)
 }.
+
+(** What MarkerAccount.SetStatus maintains (see [life_step] below): a marker that has been
+    activated has no manager any more, and an active marker has been activated. *)
+Definition cfg_wfb (c : cfg) : bool :=
+  implb (c_activated c) (negb (c_manager c)) &&
+  implb (match c_status c with SActive => true | _ => false end) (c_activated c).
 
 (** accountControlsAllSupply: [supply.IsPositive() && supply.Equal(balance)] since fix 374f3de02;
     before it the positivity test was missing ([controls_all_supply_prefix]). *)
@@ -151,7 +159,9 @@ Definition status_after (c : cfg) (o : op) : status :=
     A requirement says what the documentation demands of the caller of an endpoint on a marker in
     a given status: one of a list of access rights, or one of the listed alternatives. *)
 Inductive alt :=
-| AltManager     (* the caller is the marker's manager (exists until the marker is activated) *)
+| AltManager     (* the caller is the marker's manager, and the marker has never been activated
+                    (02_state_transitions "Active": "The manager field is cleared. All management
+                    actions require explicit permission grants.") *)
 | AltGov         (* the caller is the governance account and the marker allows governance control *)
 | AltAllSupply.  (* the caller holds the marker's entire (non-empty) supply *)
 
@@ -215,7 +225,11 @@ Definition documented (o : op) (s : status) (t : mtype) : requirement :=
   | OSetMetadata =>
       (* "This access (ADMIN) also gives the ability to update the marker's denom metadata";
          03_messages Msg/SetDenomMetadata: manager address or admin access *)
-      if st_in s [SProposed; SFinalized; SActive] then Needs [RAdmin] [AltManager] else NotAvailable
+      match s with
+      | SProposed | SFinalized => Needs [RAdmin] [AltManager]
+      | SActive => Needs [RAdmin] []
+      | SCancelled | SDestroyed => NotAvailable
+      end
   | OSetAccountData =>
       (* 03_messages Msg/SetAccountData: governance account (marker allowing governance control)
          or deposit access *)
@@ -234,7 +248,7 @@ Definition documented (o : op) (s : status) (t : mtype) : requirement :=
 
 Definition alt_met (c : cfg) (a : alt) : bool :=
   match a with
-  | AltManager => c_manager c
+  | AltManager => c_manager c && negb (c_activated c)
   | AltGov => c_gov c && c_govctl c
   | AltAllSupply => c_allsupply c && negb (c_supply_zero c)
   end.
@@ -253,7 +267,61 @@ Definition bools : list bool := [false; true].
 
 Definition all_cfgs : list cfg :=
   flat_map (fun s => flat_map (fun t => flat_map (fun rs => flat_map (fun m => flat_map (fun g =>
-  flat_map (fun gc => flat_map (fun al => map (fun sz =>
+  flat_map (fun gc => flat_map (fun al => flat_map (fun sz => map (fun act =>
     {| c_status := s; c_type := t; c_rights := rs; c_manager := m; c_gov := g; c_govctl := gc;
-       c_allsupply := al; c_supply_zero := sz |}) bools) bools) bools) bools) bools) all_masks)
-  all_types) all_status.
+       c_allsupply := al; c_supply_zero := sz; c_activated := act |}) bools) bools) bools) bools) bools) bools)
+  all_masks) all_types) all_status.
+
+(** ** The marker lifecycle: who is still manager.
+
+    Go sources: x/marker/types/marker.go SetStatus (clears Manager on ANY transition to Active),
+    NewMarkerAccount (no manager for status >= Active); x/marker/keeper/marker.go FinalizeMarker,
+    ActivateMarker, CancelMarker, DeleteMarker (status preconditions; callers here are authorised:
+    the manager for finalize / activate, a DELETE holder for cancel / delete);
+    x/marker/keeper/proposal_handler.go HandleChangeStatusProposal (governance: any status that
+    does not precede the current one; Destroyed only from Cancelled), on a marker that allows
+    governance control and whose supply sits in its own account. *)
+Record life := { l_status : status; l_manager : bool; l_activated : bool }.
+
+Definition is_active (s : status) : bool := match s with SActive => true | _ => false end.
+
+Definition set_status_gen (clear_when : status -> status -> bool) (l : life) (s : status) : life :=
+  {| l_status := s;
+     l_manager := l_manager l && negb (clear_when (l_status l) s);
+     l_activated := l_activated l || is_active s |}.
+(* current code: status == StatusActive *)
+Definition set_status := set_status_gen (fun _ s => is_active s).
+(* a variant clearing only on Finalized -> Active: refuted below *)
+Definition set_status_from_finalized_only :=
+  set_status_gen (fun cur s => status_eqb cur SFinalized && is_active s).
+
+Inductive lop := LFinalize | LActivate | LCancel | LDelete | LGov (s : status).
+
+Definition status_rank (s : status) : N :=
+  match s with SProposed => 1 | SFinalized => 2 | SActive => 3 | SCancelled => 4 | SDestroyed => 5 end.
+
+Definition life_step_gen (setst : life -> status -> life) (l : life) (o : lop) : life * bool :=
+  let s := l_status l in
+  match o with
+  | LFinalize => if status_eqb s SProposed && l_manager l then (setst l SFinalized, true) else (l, false)
+  | LActivate => if status_eqb s SFinalized && l_manager l then (setst l SActive, true) else (l, false)
+  | LCancel =>
+      match s with
+      | SProposed | SFinalized | SActive => (setst l SCancelled, true)
+      | SCancelled => (l, true)
+      | SDestroyed => (l, false)
+      end
+  | LDelete => if status_eqb s SCancelled then (setst l SDestroyed, true) else (l, false)
+  | LGov t =>
+      if N.leb (status_rank s) (status_rank t) &&
+         (negb (status_eqb t SDestroyed) || status_eqb s SCancelled)
+      then (setst l t, true) else (l, false)
+  end.
+Definition life_step := life_step_gen set_status.
+
+Definition life_wfb (l : life) : bool :=
+  implb (l_activated l) (negb (l_manager l)) && implb (is_active (l_status l)) (l_activated l).
+
+Definition life_run_gen setst (l : life) (ops : list lop) : life :=
+  fold_left (fun st o => fst (life_step_gen setst st o)) ops l.
+Definition life_run := life_run_gen set_status.
